@@ -15,7 +15,8 @@ KEY = hops.KEY
 MASK = hops.MASK
 
 TRANSFORMS = ["double", "square", "neg", "plus1", "div_sum", "minus_min",
-              "zero_all", "zero_first", "mutate_arg", "by_id_len"]
+              "zero_all", "zero_first", "mutate_arg", "by_id_len", "md_probe",
+              "md_probe"]
 RANKS = ["average", "min", "max", "dense", "ordinal"]
 LABELLERS = ["id_mod2", "id_mod3", "md_k", "const", "injective", "none_some"]
 
@@ -106,8 +107,13 @@ def op_strategy(counts=False):
     ]
     # boolean flags are sometimes spelled as numpy booleans (the result of
     # any numpy comparison), which are true/false but not `True`/`False`
-    return st.builds(lambda o, f: dict(o, npflag=True) if f else o,
-                     st.one_of(*s), st.sampled_from([False, False, True]))
+    # ... and arguments are sometimes passed positionally, in the documented
+    # order of the signature
+    return st.builds(lambda o, f, pos: dict(o, **dict(
+        ([("npflag", True)] if f else []) +
+        ([("positional", True)] if pos else []))),
+        st.one_of(*s), st.sampled_from([False, False, True]),
+        st.sampled_from([False, False, False, True]))
 
 
 # ---------------------------------------------------------------------------
@@ -166,6 +172,14 @@ def transform_fn(name):
             v *= 3
             return v
         return g
+    if name == "md_probe":
+        # reads a category no entry carries (a mapping that creates missing
+        # keys on access must not be the receiver's own)
+        def p(v, i, md):
+            k = 2 if md is not None and md["category-nobody-has"] is None \
+                else 3
+            return v * k
+        return p
     if name == "by_id_len":
         return lambda v, i, md: v * (len(i) + 1)
     raise ValueError(name)
@@ -288,8 +302,12 @@ def apply(t, op):
             def sel(v, i, md):
                 return i in ks
         held = _held(sel) if op["how"] == "ids" else None
-        r = t.filter(sel, axis=op["axis"], invert=op["invert"],
-                     inplace=op["inplace"])
+        if op.get("positional"):
+            # filter(ids_to_keep, axis, invert, inplace)
+            r = t.filter(sel, op["axis"], op["invert"], op["inplace"])
+        else:
+            r = t.filter(sel, axis=op["axis"], invert=op["invert"],
+                         inplace=op["inplace"])
         if held is not None:
             _same_arg("filter", sel, held)
         return Outcome(r, inplace=op["inplace"])
@@ -301,7 +319,9 @@ def apply(t, op):
     if name == "remove_empty":
         if t.matrix_data.count_nonzero() == 0 and not t.is_empty():
             return Outcome(skipped="would empty the table")
-        r = t.remove_empty(axis=op["axis"], inplace=op["inplace"])
+        r = t.remove_empty(op["axis"], op["inplace"]) \
+            if op.get("positional") else \
+            t.remove_empty(axis=op["axis"], inplace=op["inplace"])
         return Outcome(r, inplace=op["inplace"])
     if name == "head":
         return Outcome(t.head(op["n"], op["m"]))
@@ -316,7 +336,8 @@ def apply(t, op):
         p = hops.perm_from_key(len(ids), op["key"])
         order = [ids[i] for i in p]
         held = _held(order)
-        r = t.sort_order(order, axis=op["axis"])
+        r = t.sort_order(order, op["axis"]) if op.get("positional") else \
+            t.sort_order(order, axis=op["axis"])
         _same_arg("sort_order", order, held)
         return Outcome(r)
     if name == "transpose":
@@ -341,8 +362,12 @@ def apply(t, op):
         if len(set(new)) != len(new):
             return Outcome(skipped="non-injective renaming")
         held = _held(mp)
-        r = t.update_ids(mp, axis=op["axis"], strict=op["strict"],
-                         inplace=op["inplace"])
+        if op.get("positional"):
+            # update_ids(id_map, axis, strict, inplace)
+            r = t.update_ids(mp, op["axis"], op["strict"], op["inplace"])
+        else:
+            r = t.update_ids(mp, axis=op["axis"], strict=op["strict"],
+                             inplace=op["inplace"])
         _same_arg("update_ids", mp, held)
         return Outcome(r, inplace=op["inplace"])
     if name == "add_metadata":
@@ -366,19 +391,29 @@ def apply(t, op):
             v = _vals(t)
             if np.any(v < 0):
                 return Outcome(skipped="div_sum on negatives")
-        r = t.transform(transform_fn(op["fn"]), axis=op["axis"],
-                        inplace=op["inplace"])
+        if op.get("positional"):
+            r = t.transform(transform_fn(op["fn"]), op["axis"], op["inplace"])
+        else:
+            r = t.transform(transform_fn(op["fn"]), axis=op["axis"],
+                            inplace=op["inplace"])
         return Outcome(r, inplace=op["inplace"])
     if name == "norm":
         if np.any(_vals(t) < 0):
             return Outcome(skipped="norm on negative values")
-        r = t.norm(axis=op["axis"], inplace=op["inplace"])
+        r = t.norm(op["axis"], op["inplace"]) if op.get("positional") else \
+            t.norm(axis=op["axis"], inplace=op["inplace"])
         return Outcome(r, inplace=op["inplace"])
     if name == "pa":
-        return Outcome(t.pa(inplace=op["inplace"]), inplace=op["inplace"])
+        r = t.pa(op["inplace"]) if op.get("positional") else \
+            t.pa(inplace=op["inplace"])
+        return Outcome(r, inplace=op["inplace"])
     if name == "rankdata":
-        r = t.rankdata(axis=op["axis"], method=op["method"],
-                       inplace=op["inplace"])
+        if op.get("positional"):
+            # rankdata(axis, inplace, method)
+            r = t.rankdata(op["axis"], op["inplace"], op["method"])
+        else:
+            r = t.rankdata(axis=op["axis"], method=op["method"],
+                           inplace=op["inplace"])
         return Outcome(r, inplace=op["inplace"])
     if name == "subsample":
         if not op["by_id"] and not is_count_table(t):
@@ -455,7 +490,7 @@ def apply(t, op):
 
 # operations also applied to tables that have become empty (a reached state)
 EMPTY_OK = {"copy", "transpose", "sort", "head", "remove_empty",
-            "del_metadata", "merge", "concat", "collapse"}
+            "del_metadata", "merge", "concat", "collapse", "partition"}
 HAS_INPLACE = {"filter", "drop_all", "remove_empty", "update_ids", "transform", "norm",
                "pa", "rankdata"}
 NEW_TABLE = {"sort", "sort_order", "transpose", "copy", "head", "subsample",
